@@ -29,6 +29,7 @@ func (m Message) MarshalNBT(w io.Writer) error {
 	// so only the payload of the compound goes to w. The nbt package has no
 	// payload-only entry point: encode in network format (a single type byte
 	// followed by the payload) and drop that byte.
+	m.With = nbtArgs(m.With)
 	var buf bytes.Buffer
 	enc := nbt.NewEncoder(&buf)
 	enc.NetworkFormat(true)
@@ -43,6 +44,34 @@ func (m Message) MarshalNBT(w io.Writer) error {
 	}
 	_, err = w.Write(buf.Bytes()[1:])
 	return err
+}
+
+// nbtArgs returns the translation arguments as they are written in the NBT form.
+// A TAG_List has a single element type. Arguments that are all components or all
+// plain strings are written as they are; when components and plain strings are
+// mixed, each plain string is written as the text component it is a shorthand for.
+func nbtArgs(with TranslateArgs) TranslateArgs {
+	hasMsg, hasStr := false, false
+	for _, v := range with {
+		switch v.(type) {
+		case Message:
+			hasMsg = true
+		case string:
+			hasStr = true
+		}
+	}
+	if !hasMsg || !hasStr {
+		return with
+	}
+	args := make(TranslateArgs, len(with))
+	for i, v := range with {
+		if s, ok := v.(string); ok {
+			args[i] = Text(s)
+		} else {
+			args[i] = v
+		}
+	}
+	return args
 }
 
 func (m *Message) UnmarshalNBT(tagType byte, r nbt.DecoderReader) error {
